@@ -54,6 +54,8 @@ func bigMeta(kind string) map[string]string {
 		return map[string]string{"k": "v2"}
 	case "key-256":
 		return map[string]string{strings.Repeat("k", 256): "v"}
+	case "key-86-cjk-chars":
+		return map[string]string{strings.Repeat("\u65e5", 86): "v"} // 86 characters, 258 bytes
 	case "value-65536":
 		return map[string]string{"k": strings.Repeat("v", 65536)}
 	case "65536-keys":
@@ -69,8 +71,17 @@ func bigMeta(kind string) map[string]string {
 var nan = float32(math.NaN())
 var inf = float32(math.Inf(1))
 
+// storedVec is the vector of the prefix item; scaledVec is parallel to it but not bit-proportional: all three cosine
+// kernels return 1 - cos = -1.19e-07 for the pair, which only the Abs in space.Cosine keeps out of the priority queues
+var storedVec = []float32{0.37, 0.11}
+
+func scaledVec() []float32 {
+	three := float32(3)
+	return []float32{storedVec[0] * three, storedVec[1] * three}
+}
+
 func vectors() map[string][]float32 {
-	return map[string][]float32{"empty": {}, "ok": {1, 2}, "too-long": {1, 2, 3}, "nan-inf": {nan, inf}, "huge": {3e38, -3e38}}
+	return map[string][]float32{"empty": {}, "ok": {1, 2}, "too-long": {1, 2, 3}, "nan-inf": {nan, inf}, "huge": {3e38, -3e38}, "scaled-copy-of-stored": scaledVec()}
 }
 
 func alphabet() []request {
@@ -212,7 +223,7 @@ func alphabet() []request {
 			return n.Data.PartitionBatchRemove(bg, req)
 		})
 	}
-	for _, mk := range []string{"kv", "key-256", "value-65536", "65536-keys"} {
+	for _, mk := range []string{"kv", "key-256", "key-86-cjk-chars", "value-65536", "65536-keys"} {
 		mk := mk
 		add("Insert(D,new id,metadata "+mk+")", func(n *fakes.Node, c *ctxT) (interface{}, error) {
 			return n.Data.Insert(bg, &pb.InsertRequest{DatasetId: c.D, Id: world.ID(0x81, 0x82).Bytes(), Value: []float32{1, 2}, Metadata: bigMeta(mk)})
@@ -250,6 +261,7 @@ func alphabet() []request {
 
 type caseT struct {
 	Prefix bool     `json:"after_prefix"`
+	Cosine bool     `json:"cosine_prefix,omitempty"` // the prefix dataset uses the cosine metric
 	Seq    []int    `json:"requests"` // indices into the alphabet
 	Names  []string `json:"names"`
 }
@@ -284,8 +296,12 @@ func runCase(rs []request, c caseT) (string, string) {
 		return done, err
 	}
 	if c.Prefix {
+		prefixSpace := pb.Space_Euclidean
+		if c.Cosine {
+			prefixSpace = pb.Space_Cosine
+		}
 		done, err := call("create", func() (interface{}, error) {
-			d, err := node().Datasets.Create(context.Background(), &pb.Dataset{Dimension: 2, PartitionCount: 1, ReplicationFactor: 1})
+			d, err := node().Datasets.Create(context.Background(), &pb.Dataset{Dimension: 2, PartitionCount: 1, ReplicationFactor: 1, Space: prefixSpace})
 			if err == nil {
 				cx.D = d.Id
 				cx.P = d.Partitions[0].Id
@@ -300,7 +316,7 @@ func runCase(rs []request, c caseT) (string, string) {
 		w.Settle(1)
 		cx.A = world.ID(0x41, 0x42).Bytes()
 		done, err = call("insert", func() (interface{}, error) {
-			return node().Data.Insert(context.Background(), &pb.InsertRequest{DatasetId: cx.D, Id: cx.A, Value: []float32{1, 1}, Metadata: map[string]string{"k": "v"}})
+			return node().Data.Insert(context.Background(), &pb.InsertRequest{DatasetId: cx.D, Id: cx.A, Value: storedVec, Metadata: map[string]string{"k": "v"}})
 		})
 		if !done || err != nil {
 			return "prefix-fails", fmt.Sprintf("insert: returned=%v err=%v %v", done, err, w.Violations)
@@ -403,6 +419,15 @@ func cases(rs []request, maxLen int) []caseT {
 				for b := range rs {
 					out = append(out, caseT{Prefix: prefix, Seq: []int{a, b}})
 				}
+			}
+		}
+	}
+	// the same after a prefix on a cosine dataset: singles, and pairs that start with a write of the parallel vector
+	for a := range rs {
+		out = append(out, caseT{Prefix: true, Cosine: true, Seq: []int{a}})
+		if maxLen >= 2 && strings.Contains(rs[a].Name, "scaled-copy-of-stored") {
+			for b := range rs {
+				out = append(out, caseT{Prefix: true, Cosine: true, Seq: []int{a, b}})
 			}
 		}
 	}
